@@ -168,10 +168,7 @@ def model_validation(prop, extra_cov):
                 break
         r = qcore.validate(proj + ([can] if can else []), tag='qcore' + prop)
         ver = r['verdicts']
-        if can:
-            cv = ver.pop(can['id'])
-            if cv[0] == 'OK':
-                raise MachineryError('binding canary accepted by Trace_QueueCore: active ids emptied at a quiescent point')
+        can_ok = bool(can) and ver.pop(can['id'])[0] == 'OK'
         byid = {p_['id']: p_ for p_ in proj}
         full = {tr['id']: tr for tr in traces}
         drift, mviol, samples = {}, 0, []
@@ -187,11 +184,13 @@ def model_validation(prop, extra_cov):
                         mviol += 1
                         oc.violation(c, cls + '-model', {'trace_id': tid, 'clauses': d, 'cfg': full[tid].get('cfg'),
                                                          'by': 'QueueCore.viol on a real execution (Trace_QueueCore)'}, full[tid])
+        if can_ok and not drift and not mviol and not oc.violations:
+            raise MachineryError('binding canary accepted by Trace_QueueCore: active ids emptied at a quiescent point')
         extra_cov['design_model_validation'] = {
             'module': 'Trace_QueueCore (EXTENDS QueueCore)', 'traces': len(proj), 'outside_the_model': skipped,
             'accepted': sum(1 for v in ver.values() if v[0] == 'OK'), 'drift': drift, 'model_flagged': mviol,
             'groups_of_constants': r['groups'], 'tlc_states': r['states'], 'tlc_distinct': r['distinct'], 'wall_s': r['wall_s'],
-            'canary_rejected': bool(can), 'drift_samples': samples}
+            'canary_rejected': bool(can) and not can_ok, 'drift_samples': samples}
     return post
 
 
